@@ -12,7 +12,7 @@ From S4.Model Require Import Calendar Normalise Regex RegexPlan RegexDt RegexNum
 From S4.Gen Require Import DatetimeTables RegexTables.
 From S4.Spec Require Import CalendarSpec TzRef NormaliseSpec.
 From S4.Proofs Require Import CalendarProofs CalendarExtra NormaliseTablesOk NormaliseProofs NormaliseDenotes.
-From S4.Proofs Require Import RegexProofs RegexSim RegexUniv RegexExamples RegexIso RegexNumProofs RegexNumCover RegexYear.
+From S4.Proofs Require Import RegexProofs RegexSim RegexUniv RegexExamples RegexIso RegexNumProofs RegexNumCover RegexYear RegexComp RegexCompRows.
 Close Scope string_scope.
 Open Scope list_scope.
 Open Scope N_scope.
@@ -510,3 +510,50 @@ Example C04_regex_yearless_example :
     with_year 0 2023 (fr_msg yl_fread) = None.
 Proof. exact yearless_example. Qed.
 Print Assumptions C04_regex_yearless_example.
+
+(* ================================================================== pattern competition, the useful direction
+   [refuted r' fs] (decidable on the regenerated ASTs: r' is anchored at `^` and the symbolic engine, splitting
+   sets into bytes where needed, refutes it on every combination of shapes of the leading items) is sound: *)
+Theorem C04_regex_refuted_sound : forall r' fs texts rest,
+  refuted r' fs = true -> in_family fs texts = true -> search r' (concat texts ++ rest) = NoMatch.
+Proof. exact refuted_sound. Qed.
+Print Assumptions C04_regex_refuted_sound.
+
+(* for the lines of a row (timestamp items in the row's family, at the start of the slice) an EARLIER row that
+   is not in [competitors] never dates the line, whatever its own slice of the line shows after the timestamp *)
+Theorem C04_regex_only_competitors : forall mt tzt row r' d texts rest line yo off,
+  In r' rx_table -> rx_index r' < rx_index row ->
+  ~ In (rx_index r') (competitors rx_table row) ->
+  in_family (row_fam row) texts = true ->
+  slice_of r' line = Some (concat texts ++ rest) ->
+  dated_model mt tzt r' d line yo off = None.
+Proof. exact not_competitor_never_dates. Qed.
+Print Assumptions C04_regex_only_competitors.
+
+(* the tie to block-zero analysis (Model/Gate.v: parse_datetime_in_line tries the rows in try order and counts
+   the FIRST that dates the line; the row with the highest count, lowest index, is kept): if no row before r in
+   the order dates the line and r does, the line is counted for r *)
+Theorem C04_regex_find_dt_first : forall (dated : N -> list N -> option Z) (l : list N) r t l1 l2,
+  (forall x, In x l1 -> dated x l = None) -> dated r l = Some t ->
+  Gate.find_dt dated (l1 ++ r :: l2) l = Some (t, r).
+Proof. exact find_dt_first. Qed.
+Print Assumptions C04_regex_find_dt_first.
+
+(* the competitor lists of four representative rows (the lists are over-approximations: a listed row MAY
+   match; an unlisted earlier row provably never does).  Row 0 has none: its lines are always counted for row 0.
+   Row 79 (YYYY-MM-DD hh:mm:ss): only the unanchored rows 25, 45-57, 59 and its own ISO family 70-78. *)
+Theorem C04_regex_competitors_rows :
+  competitors rx_table (row_at 0) = [] /\
+  competitors rx_table (row_at 12) = [7; 8; 9; 10; 11] /\
+  competitors rx_table (row_at 33) = [25; 27; 28; 29; 30; 31; 32] /\
+  competitors rx_table (row_at 79) =
+    [25; 45; 46; 47; 48; 49; 50; 51; 52; 53; 54; 55; 56; 57; 59; 70; 71; 72; 73; 74; 75; 76; 77; 78].
+Proof. exact (conj competitors_0 (conj competitors_12 (conj competitors_33 competitors_79))). Qed.
+Print Assumptions C04_regex_competitors_rows.
+
+Example C04_regex_refuted_example :
+  refuted (rx_re (row_at 0)) (row_fam (row_at 79)) = true /\
+  in_family (row_fam (row_at 79)) (iso_texts 2024 2 29 23 59 59 32) = true /\
+  rx_index (row_at 0) < rx_index (row_at 79) /\ ~ In (rx_index (row_at 0)) (competitors rx_table (row_at 79)).
+Proof. exact refuted_example. Qed.
+Print Assumptions C04_regex_refuted_example.
